@@ -21,7 +21,7 @@ from .. import sym, esign
 from ..tree import walk, pp, short_fn, strip_casts
 
 LEVEL = 'other'
-UNITS = ['src/geodesy/LambertConverter.cpp']
+UNITS = ['src/geodesy/LambertConverter.cpp', 'src/geodesy/EarthEllipsoid.cpp']
 ENGINES = 'E-ALG + E-INT over romea-facts'
 TECHNIQUE = 'guards that throw evaluated on parameter sets of the quantifier, additional overloads handing each field to the factory parameter of its name, IEEE remainder interpreted, ambient errno tested without being cleared (sweep H1), exits in front of the inverse under an absolute length test, every path of the two helpers on witness (latitude, eccentricity) pairs incl. the sphere, re-mapped constructor fields judged through the forward map on path-conditioned witnesses, sweep of every function read (and its in-repo callees) for frozen function-local statics, single precision inside double computations, lossy copy constructors, presence- or argument-keyed member caches, reference members bound to constructor arguments, loop accumulators that are members, members derived in the constructor and not refreshed by setters, results returned by reference to a member buffer, members filled from an argument under a condition that ignores it, hidden non-virtual base members, self-bound reference members, reductions that accumulate in float; constructors read end to end (delegating constructors, braced aggregates by record field order): the eccentricity the maps use is that of the ellipsoid; hidden-state (function-local static cache) coherence analysis, stopping-tolerance bounds, witness-confirmed residuals; formula extraction from the AST (symbolic reading, no execution) + exact computer algebra (sympy) for the projection identities; interval/sign evaluation of log/pow arguments on both hemispheres'
 EXPLANATION = ('The projection formulas are extracted from the source as exact symbolic expressions over named atoms (N1, isolat1, n, c ...) with their defining relations; '
@@ -137,6 +137,34 @@ def check_rejections(fx, R, fns):
                 R.holds('D1', inst, 'the guard that throws is false on all %d parameter sets of the quantifier tried' % n_, fx.rel(x.get('loc') or f['loc']), 'E-STEP')
 
 
+def check_ellipsoid(fx, R):
+    """D1: the projection takes its eccentricity from the ellipsoid the caller names by its two semi-axes: EarthEllipsoid(a, b) must define e2 = (a^2 - b^2)/a^2 and e = sqrt(e2)."""
+    from .. import alg
+    ell = [f for f in fx.functions.values() if f.get('ctor') and f.get('cls') == 'romea::core::EarthEllipsoid' and len(f.get('params', [])) == 2 and f.get('body') is not None]
+    if len(ell) != 1:
+        R.undecided('D1', 'EarthEllipsoid(a, b)', 'constructor not found')
+        return
+    R.used(ell[0])
+    try:
+        es = sym.Reader(fx).run(ell[0])
+    except sym.Unsupported as u:
+        R.undecided('D1', 'EarthEllipsoid(a, b)', str(u))
+        return
+    if len(es) != 1:
+        R.undecided('D1', 'EarthEllipsoid(a, b)', 'constructor forks')
+        return
+    pa, pb = (sp.Symbol('arg:' + p_['name'], real=True) for p_ in ell[0]['params'])
+    f_ = es[0].fields
+    e2v, ev = f_.get(('this', 'e2')), f_.get(('this', 'e'))
+    if f_.get(('this', 'a')) != pa or f_.get(('this', 'b')) != pb or not isinstance(e2v, sp.Basic) or not isinstance(ev, sp.Basic):
+        R.undecided('D1', 'EarthEllipsoid(a, b)', 'constructor fields not readable')
+        return
+    dom_ = lambda s_: (637750000, 638450000) if s_ == pa else (635600000, 637700000) if s_ == pb else None
+    alg.check_zero(R, sp.Matrix([sp.together(e2v - (pa ** 2 - pb ** 2) / pa ** 2), sp.together(ev ** 2 - (pa ** 2 - pb ** 2) / pa ** 2)]), 'D1', 'EarthEllipsoid:eccentricity',
+                   'EarthEllipsoid(a, b) does not define e2 = (a^2 - b^2)/a^2 and e = sqrt(e2) (e2 = %s): the projection constants n, c and the isometric latitude are those of another ellipsoid' % str(e2v)[:120],
+                   'e2 = (a^2 - b^2)/a^2, e = sqrt(e2)', fx.rel(ell[0]['loc']), domain=dom_)
+
+
 def check_forwarding_overload(fx, R, g, name):
     """D1: an additional overload of a conversion (another point type) must hand the point on field by field: latitude to latitude, longitude to longitude - through a factory, each argument must
     land in the parameter of its own name."""
@@ -192,6 +220,7 @@ def run(fx, R, tier):
         return
     fsec, ftan = fsec[0], ftan[0]
     R.used(fsec, ftan, ffor, finv, fiso, flat, fN)
+    check_ellipsoid(fx, R)
     check_rejections(fx, R, [fsec, ftan, ffor, finv, fiso, flat, fN] + [c_ for c_ in fx.functions.values() if c_.get('ctor') and c_.get('cls') == Q.rstrip(':') and c_.get('body') is not None])
     try:
         rsec, ssec = read(fx, fsec)
